@@ -52,6 +52,10 @@ BoolFailing(ev) ==
         \cup (IF Abs(ev.big[1] + ev.big[2] - ev.big[5] - ev.big[6]) <= 2 THEN {} ELSE {<<"big_scale_area_or_plus_and">>})
         \cup (IF Abs(ev.big[4] - (ev.big[5] - ev.big[2])) <= 2 THEN {} ELSE {<<"big_scale_area_not">>})
         \cup (IF Abs(ev.big[3] - (ev.big[1] - ev.big[2])) <= 2 THEN {} ELSE {<<"big_scale_area_xor">>})
+        \* the operands squeezed into |x| < 2^30 and moved to y < -2^30 on a grid of 2^-34 (big2, areas times 256): same areas
+        \cup (IF "big2" \notin DOMAIN ev THEN {}
+              ELSE (IF ev.big2_err = 0 THEN {} ELSE {<<"big_scale_negative_y_error_code">>})
+                   \cup {<<"big_scale_negative_y_area_differs", k>> : k \in {i \in 1..4 : Abs(ev.big2[i] - ev.big[i]) > 40}})
         \* the identities alone hold for consistently wrong results too (an operand that vanishes on the
         \* fine grid): each fine-grid area is also the area of the same result on the coarse grid, up to
         \* the coarse grid's rounding of non-Manhattan crossings (32-bit integers: scalings 1 and 8)
